@@ -42,7 +42,7 @@ RULE = (
 ASSUMPTIONS = [
     "the corpus modules are deterministic functions of their inputs; a test that builds a set (literal, set(), containers.uniq) and whose "
     "trace differs between hash seeds is attributed to the SUT's own iteration order and excused (anomaly sut-hash-order), the pair is then "
-    "not judged further",
+    "not judged further - except for the modules of sut_corpus.NO_ARGUMENT_ITERATION, whose functions never iterate over an argument",
     "the RNG tap overrides random() and getrandbits() of a subclass of pynguin's Random: the draw sequence is the one of the base class",
     "budgets are iteration- or execution-bounded (maximum_search_time disabled); executor timeouts (wall-clock) that differ between two runs "
     "are reported under their own mechanism timing:*, they are a property violation (same seed, different files) but not a hash-order one",
@@ -77,13 +77,14 @@ def floors(tier):
     if tier == "quick":
         cl = {f"algo:{a}": 4 for a in ALGOS}
         cl.update({"ag:NONE": 8, "ag:SIMPLE": 6, "ag:MUTATION_ANALYSIS": 3, "budget:iterations": 8, "budget:executions": 8,
-                   "hashseed:random": 4, "pair:same-hashseed": 3, "pair:different-hashseed": 24})
+                   "hashseed:random": 4, "pair:same-hashseed": 3, "pair:different-hashseed": 24,
+                   "render:values-rendered-under-several-hash-seeds": 60})
         return {"evals": 30, "distinct": 24, "classes": cl}
     k = 4
     cl = {f"algo:{a}": 6 * k for a in ALGOS}
     cl.update({"ag:NONE": 12 * k, "ag:SIMPLE": 8 * k, "ag:MUTATION_ANALYSIS": 3 * k})
     cl.update({"budget:iterations": 12 * k, "budget:executions": 12 * k, "hashseed:random": 5 * k, "pair:same-hashseed": 3,
-               "pair:different-hashseed": 30 * k})
+               "pair:different-hashseed": 30 * k, "render:values-rendered-under-several-hash-seeds": 60})
     return {"evals": 40 * k, "distinct": 30 * k, "classes": cl}
 
 
@@ -117,6 +118,11 @@ def _directed_cases():
                 hs.append(HASHSEEDS[(si + ai + 3) % 5])
             cases.append({"sut": sut, "algo": algo, "seed": 11 + (i % 2) * 31, "budget": _budget(kind, algo, i), "ag": ag, "hashseeds": hs})
             i += 1
+    # membership tests against a large frozenset of strings: the branch distance of `x in S` is a minimum over all elements of S,
+    # whose iteration order follows the hash seed; longer searches so that a distance that depends on that order reaches the files
+    cases.append({"sut": "vocab", "algo": "DYNAMOSA", "seed": 7, "budget": {"maximum_iterations": 5}, "ag": "NONE", "hashseeds": ["1", "2", "3"]})
+    cases.append({"sut": "vocab", "algo": "WHOLE_SUITE", "seed": 7, "budget": {"maximum_iterations": 10}, "ag": "NONE", "hashseeds": ["1", "2"]})
+    cases.append({"sut": "vocab", "algo": "DYNAMOSA", "seed": 7, "budget": {"maximum_iterations": 20}, "ag": "SIMPLE", "hashseeds": ["2", "3"]})
     # plain races: the very same environment twice
     for j, (sut, algo) in enumerate([("tri", "RANDOM"), ("queue_", "WHOLE_SUITE"), ("account", "DYNAMOSA"), ("strings", "MIO")]):
         cases.append({"sut": sut, "algo": algo, "seed": 5 + j, "budget": _budget("iterations", algo, j), "ag": "NONE", "hashseeds": ["0", "0"]})
@@ -138,7 +144,7 @@ def plan(tier, seed):
     directed = _directed_cases()
     if quick:
         # two thirds of the module x algorithm grid (every module and every algorithm still occurs) + the same-hash-seed pairs
-        directed = [c for i, c in enumerate(directed) if i % 3 != 2 or c["hashseeds"][0] == c["hashseeds"][1]]
+        directed = [c for i, c in enumerate(directed) if i % 3 != 2 or c["hashseeds"][0] == c["hashseeds"][1] or (c["sut"] == "vocab" and c["seed"] == 7)]
     rng = random.Random(seed * 1_000_003 + 16)
     rand = [_random_case(rng) for _ in range(4 if quick else 240)]
     # interleave so that every chunk gets a mix of cheap and expensive (MUTATION_ANALYSIS) cases
@@ -150,7 +156,7 @@ def plan(tier, seed):
     import os
 
     assume = [f for f in os.environ.get("C16_ASSUME_FIXES", "").split(",") if f]
-    return [{"name": "directed+random", "cases": cases[i::n_chunks], "max_peeled_cases": (1 if i % 2 == 0 else 0) if quick else 2,
+    return [{"name": "render"}] + [{"name": "directed+random", "cases": cases[i::n_chunks], "max_peeled_cases": (1 if i % 2 == 0 else 0) if quick else 2,
              "assume_fixes": assume} for i in range(n_chunks)]
 
 
@@ -197,6 +203,7 @@ def run_case(ctx, case, idx, proj, breaks=None, peel_budget=None, assume_fixes=(
         reported under its own key - a new source.  If several repairs were needed before the case became clean the key is
         ``explained-by-known-sources:<repair>+<repair>``.
     """
+    from vlib import sut_corpus
     from vlib.monitors import rngtap
 
     tag0 = f"{case['sut']}:{case['algo']}:seed={case['seed']}:{case['budget']}:{case['ag']}"
@@ -259,6 +266,9 @@ def run_case(ctx, case, idx, proj, breaks=None, peel_budget=None, assume_fixes=(
                 ctx.cls("peeled-pair")
             if dg["kind"] == "same":
                 continue
+            if dg["kind"] == "sut-hash-order" and case["sut"] in sut_corpus.NO_ARGUMENT_ITERATION:
+                # this module never iterates over an argument: the differing result of the same test is not the SUT's doing
+                dg = dict(dg, kind="exec-result", key="exec-result-differs:same-test-code")
             if dg["kind"] == "sut-hash-order":
                 ctx.anomaly("sut-hash-order:test-builds-a-set")
                 unjudged += 1
@@ -334,9 +344,67 @@ def run_case(ctx, case, idx, proj, breaks=None, peel_budget=None, assume_fixes=(
             emit(key, desc, wcase)
 
 
+RENDER_SCRIPT = r"""
+import json, sys
+import libcst as cst
+from pynguin.assertion.assertion import ObjectAssertion
+from pynguin.assertion.assertion_to_ast import assertion_to_cst
+from pynguin.testcase.literalgen import literal_to_cst
+
+VALUES = [
+    {"alpha", "beta", "gamma", "delta"}, {"x", "y"}, {b"raw", b"bytes", b"more"}, {("a", 1), ("b", 2), ("c", 3)},
+    [{"p", "q", "r"}, {"s", "t"}], ({"k1", "k2", "k3"},), {"outer": {"i1", "i2", "i3", "i4"}}, {1, "one", "uno", b"1"},
+    {"only"}, set(), {"a", "b", "c", "d", "e", "f", "g", "h", "i", "j", "k", "l"},
+]
+out = []
+for v in VALUES:
+    lit = cst.Module(body=[cst.SimpleStatementLine(body=[cst.Expr(literal_to_cst(v))])]).code.strip()
+    try:
+        asr = cst.Module(body=[assertion_to_cst(ObjectAssertion("var_0", v))]).code.strip()
+    except Exception as e:
+        asr = "<%s>" % type(e).__name__
+    out.append([lit, asr])
+json.dump(out, sys.stdout)
+"""
+
+
+def _render_chunk(ctx):
+    """The same values rendered by the real literal / assertion renderers in interpreters with different PYTHONHASHSEED: the
+    written bytes must not depend on the hash seed (a set of strings iterates in hash order)."""
+    import json
+    import os
+    import subprocess
+    import sys
+
+    outs = {}
+    for hs in ("1", "2", "3", "123"):
+        env = dict(os.environ, PYTHONHASHSEED=hs)
+        try:
+            cp = subprocess.run([sys.executable, "-c", RENDER_SCRIPT], capture_output=True, text=True, timeout=300, env=env, cwd=str(ctx.scratch))
+        except subprocess.TimeoutExpired:
+            ctx.inconclusive_because(f"render under PYTHONHASHSEED={hs}: timeout")
+            return
+        if cp.returncode != 0:
+            ctx.inconclusive_because(f"render under PYTHONHASHSEED={hs} failed: {cp.stderr[-300:]}")
+            return
+        outs[hs] = json.loads(cp.stdout)
+    base = outs["1"]
+    for hs, rendered in outs.items():
+        for i, (a, b) in enumerate(zip(base, rendered)):
+            for which, x, y in (("literal_to_cst", a[0], b[0]), ("assertion_to_cst", a[1], b[1])):
+                ctx.ok(cls=["render:values-rendered-under-several-hash-seeds"], distinct=f"render|{which}|{i}|{hs}" if hs != "1" else None)
+                if x != y:
+                    ctx.witness(f"render:set-order-follows-hash-seed:{which}",
+                                f"value #{i} renders as `{x[:120]}` under PYTHONHASHSEED=1 and as `{y[:120]}` under PYTHONHASHSEED={hs}",
+                                {"value_index": i, "hashseeds": ["1", hs], "renderer": which, "a": x, "b": y})
+
+
 def run_chunk(spec, ctx):
     from vlib import sut_corpus
 
+    if spec["name"] == "render":
+        _render_chunk(ctx)
+        return
     proj = sut_corpus.copy_to(ctx.scratch / "proj", _suts())
     peel_budget = [spec["max_peeled_cases"]] if spec.get("max_peeled_cases") is not None else None
     for i, case in enumerate(spec["cases"]):
